@@ -587,6 +587,23 @@ def run_C17(res, tier, seed, t_end, bad):
             clientlevel.run_C17(res, tier, seed, t_end)
         except ImportError:
             res.notes.append('client-level part not available')
+    if not res.findings:
+        client_decode_tie(res, tier, seed)
+
+
+def client_decode_tie(res, tier, seed):
+    """the Lean model of FakeConnection.read_response/_decode (FR/Sys/Client.lean, theorems FR.Props.C17c) against the real sync and
+    asyncio connections with redis-py's Encoder: random nested replies under every decode_responses / encoding / errors configuration"""
+    import client_tie
+    r = client_tie.tie(n=1500 if tier == 'quick' else 20000, seed=seed, exhaustive=(tier != 'quick'))
+    res.evaluations += r['tests']
+    res.cells.add(('client-decode-tie', tuple(sorted(r['stats']))))
+    res.notes.append('client decode tie: %d tests, outcomes %s' % (r['tests'], r['stats']))
+    if r['rc'] == 1:
+        res.add({'kind': 'monitor', 'verdict': 'violation', 'clause': 'client_decode_model_eq_code',
+                 'detail': 'read_response/_decode differs from the model proved in FR.Props.C17c: %r (%d of %d tests)' % (r['first'], r['disagreements'], r['tests'])})
+    elif r['rc'] != 0:
+        res.add({'kind': 'internal', 'verdict': 'no-failing-input-found', 'clause': 'client_decode_tie', 'detail': str(r['first'])[:500]})
 
 
 # ---- C18 -------------------------------------------------------------------------------------
